@@ -71,6 +71,8 @@ def pre (rs : Rows α) : Op α → Bool
   | .set row column _ => decide (row < nrows rs) && decide (column < ncols rs)
   | .mapMut _ => true
   | .mapMutWithIndex _ => true
+  | .map _ => true
+  | .mapWithIndex _ => true
 
 /-- The effect of each operation on the list of rows (meaningful when `pre` holds). -/
 def apply (rs : Rows α) : Op α → Rows α
@@ -87,6 +89,8 @@ def apply (rs : Rows α) : Op α → Rows α
   | .set row column value => rs.modify row (·.set column value)
   | .mapMut f => rs.map (·.map f)
   | .mapMutWithIndex f => rs.mapIdx fun i r => r.mapIdx fun j x => f x i j
+  | .map f => rs.map (·.map f)
+  | .mapWithIndex f => rs.mapIdx fun i r => r.mapIdx fun j x => f x i j
 
 /-- One operation: the new list of rows, or a panic (the list of rows is then unmodified). -/
 def step (rs : Rows α) (op : Op α) : Outcome (Rows α) :=
@@ -105,6 +109,62 @@ def run (rs : Rows α) : List (Op α) → Rows α
 def runTrace (rs : Rows α) : List (Op α) → List Bool
   | [] => []
   | op :: ops => (!pre rs op) :: runTrace (next rs op) ops
+
+/-- `scalar()`: the only element of a 1×1 list of rows, a panic otherwise -/
+def scalar (rs : Rows α) : Outcome α :=
+  match rs with
+  | [[x]] => .ok x
+  | _ => .panic .explicit
+
+/-- `try_into_scalar()`: the only element of a 1×1 list of rows, `none` (`Err`) otherwise -/
+def tryIntoScalar (rs : Rows α) : Option α :=
+  match rs with
+  | [[x]] => some x
+  | _ => none
+
+/-! ### constructors -/
+
+/-- the square list of rows with `values` on the diagonal and `zero` elsewhere -/
+def diag (zero : α) (values : List α) : Rows α :=
+  values.mapIdx fun i x => (List.range values.length).map fun j => if j = i then x else zero
+
+open Matrix (Ctor)
+
+/-- The documented precondition of each constructor (at least 1×1, rectangular, matching element
+    count, square for the diagonal forms; an element count that `usize` cannot represent is
+    rejected). -/
+def ctorPre : Ctor α → Bool
+  | .fromScalar _ => true
+  | .row values => !values.isEmpty
+  | .column values => !values.isEmpty
+  | .fromRows values =>
+    match values with
+    | [] => false
+    | first :: _ => !first.isEmpty && values.all (·.length == first.length)
+  | .fromFlatRowMajor rows columns values =>
+    decide (rows * columns ≤ usizeMax) && decide (rows * columns = values.length) && !values.isEmpty
+  | .fromFn rows columns _ =>
+    decide (1 ≤ rows) && decide (1 ≤ columns) && decide (rows * columns ≤ usizeMax)
+  | .empty _ rows columns =>
+    decide (1 ≤ rows) && decide (1 ≤ columns) && decide (rows * columns ≤ usizeMax)
+  | .diagonal _ _ rows columns =>
+    decide (rows = columns) && decide (1 ≤ rows) && decide (rows * columns ≤ usizeMax)
+  | .fromDiagonal _ values =>
+    !values.isEmpty && decide (values.length * values.length ≤ usizeMax)
+
+/-- The list of rows each constructor describes (meaningful when `ctorPre` holds). -/
+def ctorRows : Ctor α → Rows α
+  | .fromScalar value => [[value]]
+  | .row values => [values]
+  | .column values => values.map fun x => [x]
+  | .fromRows values => values
+  | .fromFlatRowMajor rows columns values =>
+    (List.range rows).map fun r => (values.drop (r * columns)).take columns
+  | .fromFn rows columns producer =>
+    (List.range rows).map fun r => (List.range columns).map fun c => producer r c
+  | .empty value rows columns => List.replicate rows (List.replicate columns value)
+  | .diagonal zero value rows _ => diag zero (List.replicate rows value)
+  | .fromDiagonal zero values => diag zero values
 
 end Rows
 end EasyMl
